@@ -482,7 +482,7 @@ var c01Atoms = []kwAtom{
 	{"enum", []any{1, "a"}}, {"enum", []any{nil}}, {"enum", []any{[]any{1}, map[string]any{"a": 1}}},
 	{"minimum", 1}, {"maximum", 2}, {"exclusiveMinimum", true}, {"exclusiveMaximum", true},
 	{"multipleOf", 0.5}, {"multipleOf", 2}, {"multipleOf", 0},
-	{"minLength", 2}, {"maxLength", 2}, {"pattern", "^a"}, {"pattern", "(("}, {"format", "date"}, {"format", "int32"}, {"format", "nosuchformat"}, {"format", "ipv4"}, {"format", "x-wrapped-ip"},
+	{"minLength", 2}, {"maxLength", 2}, {"pattern", "^a"}, {"pattern", "(("}, {"format", "date"}, {"format", "int32"}, {"format", "nosuchformat"}, {"format", "ipv4"}, {"format", "ipv6"}, {"format", "x-wrapped-ip"},
 	{"minItems", 1}, {"maxItems", 1}, {"uniqueItems", true},
 	{"required", []any{"a"}}, {"minProperties", 1}, {"maxProperties", 1}, {"additionalProperties", false}, {"additionalProperties", true},
 	{"minimum", 2147483647}, {"maximum", -1}, {"minLength", 0}, {"maxLength", 0}, {"maxItems", 0}, {"required", []any{"a", "b"}}, {"maxProperties", 0},
